@@ -110,7 +110,7 @@ def _write_replay(prop, family, tier, obid, model):
     return base + ".sh"
 
 
-def run(family, tier, seed, prop, only=None):
+def run(family, tier, seed, prop, only=None, id_regex=None):
     build()
     results = []
     quick = tier != "thorough"
@@ -124,6 +124,11 @@ def run(family, tier, seed, prop, only=None):
                               detail="symbolic execution failed: " + p.stderr.decode(errors="replace")[-800:],
                               nontrivial=False)]
         metas = json.load(open(os.path.join(outdir, "index.json")))
+        if id_regex:
+            import re
+            rx = re.compile(id_regex)
+            # harness panics are never filtered away
+            metas = [m for m in metas if rx.search(m["id"]) or m["id"].endswith(".panic")]
         common.log("symf emit %s: %d obligations in %.1fs" % (family, len(metas), time.time() - t0))
         # vacuity witnesses: the same obligations evaluated natively on pseudo-random inputs; an
         # obligation whose hypotheses hold on a concrete input has satisfiable hypotheses
